@@ -59,6 +59,10 @@ K17 = [
     (Skeleton("f08_method_object_nested_helper", {
         "main.py": "class Shape:\n    def __init__(self, {0}):\n        self.side = {0}\n    def area(self, {1}):\n        def square({2}):\n            {3} = {2} * {2}\n            return {3}\n        return square(self.side) + {1}\n    def perimeter(self):\n        return 4 * self.side\nprint(Shape(3).area(1), Shape(3).perimeter())\n"}),
      lambda files, names: dict(api="method_object", path="main.py", offset=_off(files, "main.py", "square"), name="FunObject")),
+    # the nested helper reads a variable of the enclosing function (a closure)
+    (Skeleton("f09_method_object_closure", {
+        "main.py": "def outer({0}):\n    {1} = {0} + 1\n    def helper({2}):\n        return {2} * {1}\n    return helper(2)\nprint(outer(1))\n"}),
+     lambda files, names: dict(api="method_object", path="main.py", offset=_off(files, "main.py", "helper"), name="FunObject")),
 ]
 
 
@@ -78,7 +82,9 @@ def make_run(p):
         return opf(cf, names)
 
     def run():
-        return bref.run_refactoring(s, build_op, PROPERTY, check_imports=True, extra_reserved=("create", "FunObject"))
+        from harness.c17_replay import tags_of
+
+        return bref.run_refactoring(s, build_op, PROPERTY, check_imports=True, extra_reserved=("create", "FunObject"), tagger=tags_of)
 
     return run
 
